@@ -100,8 +100,9 @@ type scenario struct {
 	ShutAfter int    `json:"shut_after"`
 	ShutExtra int    `json:"shut_extra"`
 	// amplifier for the shutdown drain: GOMAXPROCS and busy goroutines during Shutdown
-	Procs    int `json:"procs,omitempty"`
-	Spinners int `json:"spinners,omitempty"`
+	Procs    int  `json:"procs,omitempty"`
+	Spinners int  `json:"spinners,omitempty"`
+	GCStress bool `json:"gc_stress,omitempty"`
 	// workload mix switches
 	Tracers bool `json:"tracers"`
 	Dense   bool `json:"dense"` // many runs / shared / colliding texts (merging)
@@ -175,12 +176,15 @@ func splitOps(r *vlib.Rand, total, producers int) []int {
 }
 
 // genScenario derives case number n of the run.
-func genScenario(cfg vlib.Cfg, n int, build string) scenario {
+func genScenario(cfg vlib.Cfg, n int, build string, family string) scenario {
 	r := vlib.NewRand(cfg.Seed, "C20/case/"+build, uint64(n))
 	s := scenario{Case: n, Seed: r.Uint64(), Build: build, Hold: holdSpec{First: -1}, Trig: trigSpec{WithholdUntil: 0}}
 	race := build == "race"
 	families := []string{"free", "free-hold", "sched", "sched-withheld", "small", "squeeze", "free-hold", "sched-withheld"}
 	s.Family = families[n%len(families)]
+	if family != "" {
+		s.Family = family
+	}
 	big := cfg.Thorough() && !race && r.Chance(1, 4)
 
 	// size
@@ -226,7 +230,8 @@ func genScenario(cfg vlib.Cfg, n int, build string) scenario {
 		lowFirst = true
 		s.Trig = trigSpec{WithholdUntil: -1}
 		s.Procs = vlib.Pick(r, 1, 1, 2)
-		s.Spinners = vlib.Pick(r, 2, 4, 8)
+		s.Spinners = vlib.Pick(r, 1, 2, 3)
+		s.GCStress = r.Bool()
 		nph = 1
 		total = r.Range(1500, 4000)
 	}
